@@ -21,6 +21,7 @@ import (
 	v2 "mosn.io/mosn/pkg/config/v2"
 	"mosn.io/mosn/pkg/protocol/xprotocol/bolt"
 	"mosn.io/mosn/pkg/streamfilter"
+	"mosn.io/mosn/pkg/types"
 	"mosn.io/mosn/pkg/verifrt/vreport"
 	"mosn.io/mosn/pkg/verifrt/vrt"
 	"mosn.io/pkg/buffer"
@@ -30,8 +31,20 @@ const c14FilterType = "verif_scripted"
 
 // current scenario / run, read by the scripted filters (one execution at a time)
 var c14Cur struct {
-	sc  *hpScenario
-	run *hpRun
+	sc      *hpScenario
+	run     *hpRun
+	created int // stream filter chains created in this execution
+}
+
+// c14Chain is the configured chain of the k-th stream.
+func c14Chain(sc *hpScenario, k int) []hpFilter {
+	if sc.FiltersPer == nil {
+		return sc.Filters
+	}
+	if k < len(sc.FiltersPer) {
+		return sc.FiltersPer[k]
+	}
+	return nil
 }
 
 var c14Once sync.Once
@@ -43,8 +56,10 @@ func (c14Factory) CreateFilterChain(ctx context.Context, cb api.StreamFilterChai
 	if sc == nil {
 		return
 	}
-	for i, f := range sc.Filters {
-		fl := &c14Filter{idx: i, spec: f}
+	k := c14Cur.created
+	c14Cur.created++
+	for i, f := range c14Chain(sc, k) {
+		fl := &c14Filter{idx: i, spec: f, req: k}
 		switch f.Phase {
 		case "before-route":
 			cb.AddStreamReceiverFilter(fl, api.BeforeRoute)
@@ -60,6 +75,7 @@ func (c14Factory) CreateFilterChain(ctx context.Context, cb api.StreamFilterChai
 
 type c14Filter struct {
 	idx   int
+	req   int // which stream (in creation order) the filter belongs to
 	spec  hpFilter
 	rh    api.StreamReceiverFilterHandler
 	sh    api.StreamSenderFilterHandler
@@ -72,7 +88,7 @@ func (f *c14Filter) SetSenderFilterHandler(h api.StreamSenderFilterHandler)    {
 
 func (f *c14Filter) log(kind, ret string) {
 	if r := c14Cur.run; r != nil {
-		r.obs.FilterLog = append(r.obs.FilterLog, fmt.Sprintf("%s:%d:%s:%s", kind, f.idx, f.spec.Phase, ret))
+		r.obs.FilterLog = append(r.obs.FilterLog, fmt.Sprintf("%s:%d:%s:%s:%d", kind, f.idx, f.spec.Phase, ret, f.req))
 	}
 }
 
@@ -100,6 +116,25 @@ func (f *c14Filter) OnReceive(ctx context.Context, headers api.HeaderMap, buf ap
 		}
 	case "rechoose":
 		if f.calls == 1 {
+			ret = api.StreamFilterReChooseHost
+		}
+	case "rematch-noroute":
+		// the usual reason for a re-match: the filter rewrote what routes match on - here to
+		// something no route matches, so the proxy ends the request while the pass is suspended
+		if f.calls == 1 {
+			headers.Set("service", "gone")
+			ret = api.StreamFilterReMatchRoute
+		}
+	case "rechoose-nohost":
+		// ... and for a re-choose: the chosen host is found bad; here every host is, so the
+		// second choice fails and the proxy ends the request while the pass is suspended
+		if f.calls == 1 {
+			if r := c14Cur.run; r != nil {
+				r.cm.GetClusterSnapshot(ctx, hpCluster).HostSet().Range(func(h types.Host) bool {
+					h.SetHealthFlag(api.FAILED_ACTIVE_HC)
+					return true
+				})
+			}
 			ret = api.StreamFilterReChooseHost
 		}
 	}
@@ -139,7 +174,7 @@ func c14Install() {
 		})
 	})
 	hpFilterHook = func(sc *hpScenario, h *hpRun) {
-		c14Cur.sc, c14Cur.run = sc, h
+		c14Cur.sc, c14Cur.run, c14Cur.created = sc, h, 0
 		streamfilter.GetStreamFilterManager().AddOrUpdateStreamFilterConfig(hpListener, []v2.Filter{{Type: c14FilterType, Config: map[string]interface{}{"n": len(sc.Filters)}}})
 	}
 }
@@ -159,8 +194,8 @@ func c14Scenarios(maxRecv, maxSend int, scripts []string) []hpScenario {
 	phases := []string{"before-route", "after-route", "after-choose-host"}
 	verdicts := map[string][]string{
 		"before-route":      {"continue", "stop", "terminate", "hijack", "hijack-stop", "direct"},
-		"after-route":       {"continue", "stop", "terminate", "hijack", "hijack-stop", "direct", "rematch"},
-		"after-choose-host": {"continue", "stop", "terminate", "hijack", "hijack-stop", "direct", "rechoose"},
+		"after-route":       {"continue", "stop", "terminate", "hijack", "hijack-stop", "direct", "rematch", "rematch-noroute"},
+		"after-choose-host": {"continue", "stop", "terminate", "hijack", "hijack-stop", "direct", "rechoose", "rechoose-nohost"},
 	}
 	var recvChains [][]hpFilter
 	var gen func(cur []hpFilter, n int)
@@ -220,6 +255,16 @@ func c14Check(sc *hpScenario, obs *hpObs, r *vrt.Result, report func(kind, detai
 		}
 		return
 	}
+	for k := range sc.Requests {
+		c14CheckReq(sc, k, obs, report)
+	}
+}
+
+// c14CheckReq applies the statement to the k-th request (stream k in creation order: the
+// scenarios with more than one request send them sequentially).
+func c14CheckReq(sc *hpScenario, k int, obs *hpObs, report func(kind, detail string)) {
+	filters := c14Chain(sc, k)
+	token := sc.Requests[k].Token
 	type ent struct {
 		kind  string
 		idx   int
@@ -227,10 +272,16 @@ func c14Check(sc *hpScenario, obs *hpObs, r *vrt.Result, report func(kind, detai
 		ret   string
 	}
 	var recv, send []ent
+	var mine []string
 	for _, l := range obs.FilterLog {
-		p := strings.SplitN(l, ":", 4)
-		var i int
+		p := strings.SplitN(l, ":", 5)
+		var i, rq int
 		fmt.Sscanf(p[1], "%d", &i)
+		fmt.Sscanf(p[4], "%d", &rq)
+		if rq != k {
+			continue
+		}
+		mine = append(mine, l)
 		e := ent{p[0], i, p[2], p[3]}
 		if e.kind == "recv" {
 			recv = append(recv, e)
@@ -238,7 +289,13 @@ func c14Check(sc *hpScenario, obs *hpObs, r *vrt.Result, report func(kind, detai
 			send = append(send, e)
 		}
 	}
-	logStr := strings.Join(obs.FilterLog, " ")
+	if len(sc.Requests) > 1 {
+		pre := report
+		report = func(kind, detail string) {
+			pre(kind, fmt.Sprintf("request %d of %d: %s", k+1, len(sc.Requests), detail))
+		}
+	}
+	logStr := strings.Join(mine, " ")
 	// --- (1) receive order. A pass of a phase ends at a phase change or at a re-match / re-choose
 	// request; within a pass configured order (strictly increasing index), so at most once per pass.
 	answered, terminated := false, false
@@ -267,7 +324,7 @@ func c14Check(sc *hpScenario, obs *hpObs, r *vrt.Result, report func(kind, detai
 			report("receive filters not run in configured order / more than once per pass", fmt.Sprintf("filter %d after %d in one pass of %s: %s", e.idx, lastIdx, e.phase, logStr))
 		}
 		lastIdx, lastPhase = e.idx, e.phase
-		v := sc.Filters[e.idx].Verdict
+		v := filters[e.idx].Verdict
 		if v == "hijack" || v == "hijack-stop" || v == "direct" {
 			answered = true
 		}
@@ -278,14 +335,62 @@ func c14Check(sc *hpScenario, obs *hpObs, r *vrt.Result, report func(kind, detai
 			resumeAt, resumePhase = e.idx, e.phase
 		}
 	}
+	// --- (1b) configured order leaves nobody out: a pass starts at the first configured filter of
+	// its phase (or at the filter that asked for the re-match / re-choose) and goes on with the
+	// next configured filter of that phase while the verdicts are "continue"
+	phaseIdx := map[string][]int{}
+	for i, f := range filters {
+		if f.Phase != "send" {
+			phaseIdx[f.Phase] = append(phaseIdx[f.Phase], i)
+		}
+	}
+	nextOf := func(ph string, i int) int {
+		for _, j := range phaseIdx[ph] {
+			if j > i {
+				return j
+			}
+		}
+		return -1
+	}
+	for n, e := range recv {
+		samePass := n > 0 && recv[n-1].phase == e.phase && recv[n-1].ret == string(api.StreamFilterContinue)
+		switch {
+		case samePass:
+			if want := nextOf(e.phase, recv[n-1].idx); want >= 0 && e.idx > want {
+				report("receive filter skipped: a later filter of the phase ran although an earlier configured one did not", fmt.Sprintf("phase %s: filter %d ran after filter %d, configured filter %d was jumped over: %s", e.phase, e.idx, recv[n-1].idx, want, logStr))
+			}
+		case n > 0 && (recv[n-1].ret == string(api.StreamFilterReMatchRoute) || recv[n-1].ret == string(api.StreamFilterReChooseHost)) && recv[n-1].phase == e.phase:
+			// resumed pass: checked above
+		default:
+			if first := phaseIdx[e.phase][0]; e.idx > first {
+				report("receive filter skipped: a later filter of the phase ran although an earlier configured one did not", fmt.Sprintf("phase %s: the pass starts at filter %d, configured filter %d was jumped over: %s", e.phase, e.idx, first, logStr))
+			}
+		}
+	}
+	stopped := false // "stop" ends the filter pass, not the request: the rest of the chain is left out by design
+	for _, e := range recv {
+		stopped = stopped || e.ret == string(api.StreamFilterStop)
+	}
+	if obs.Attempts[token] > 0 && !stopped {
+		ran := map[int]bool{}
+		for _, e := range recv {
+			ran[e.idx] = true
+		}
+		for i, f := range filters {
+			if f.Phase != "send" && !ran[i] {
+				report("request forwarded upstream although a configured receive filter never ran", fmt.Sprintf("filter %d (%s) has no call; filters: %s", i, f.Phase, logStr))
+				break
+			}
+		}
+	}
 	// --- (2) a denied request is never forwarded
-	if (answered || terminated) && obs.Attempts["t1"] > 0 {
-		report("request forwarded upstream although a receive filter answered or terminated it", fmt.Sprintf("%d upstream request frame(s); filters: %s", obs.Attempts["t1"], logStr))
+	if (answered || terminated) && obs.Attempts[token] > 0 {
+		report("request forwarded upstream although a receive filter answered or terminated it", fmt.Sprintf("%d upstream request frame(s); filters: %s", obs.Attempts[token], logStr))
 	}
 	// --- (3) responses
 	var down []hpFrame
 	for _, f := range obs.DownFrames {
-		if f.ID == 100 {
+		if f.ID == uint32(100+k) {
 			down = append(down, f)
 		}
 	}
@@ -299,7 +404,7 @@ func c14Check(sc *hpScenario, obs *hpObs, r *vrt.Result, report func(kind, detai
 		} else {
 			want := uint16(0)
 			for _, e := range recv {
-				v := sc.Filters[e.idx].Verdict
+				v := filters[e.idx].Verdict
 				if v == "hijack" || v == "hijack-stop" {
 					want = c14HijackStatus(sc)
 				} else if v == "direct" {
@@ -312,7 +417,7 @@ func c14Check(sc *hpScenario, obs *hpObs, r *vrt.Result, report func(kind, detai
 			// a later answering filter of the same pass may overwrite an earlier hijack+continue: accept any answering filter's status
 			ok := false
 			for _, e := range recv {
-				v := sc.Filters[e.idx].Verdict
+				v := filters[e.idx].Verdict
 				if (v == "hijack" || v == "hijack-stop") && down[0].Status == c14HijackStatus(sc) {
 					ok = true
 				}
@@ -331,7 +436,7 @@ func c14Check(sc *hpScenario, obs *hpObs, r *vrt.Result, report func(kind, detai
 	}
 	// --- (4) send filters: configured order, at most once per response, exactly once while all earlier continued
 	var sendIdx []int
-	for i, f := range sc.Filters {
+	for i, f := range filters {
 		if f.Phase == "send" {
 			sendIdx = append(sendIdx, i)
 		}
@@ -348,7 +453,7 @@ func c14Check(sc *hpScenario, obs *hpObs, r *vrt.Result, report func(kind, detai
 		var exp []int
 		for _, i := range sendIdx {
 			exp = append(exp, i)
-			if sc.Filters[i].Verdict != "continue" {
+			if filters[i].Verdict != "continue" {
 				break
 			}
 		}
@@ -418,6 +523,28 @@ func TestVerifC14Filters(t *testing.T) {
 		sc.RetryOn, sc.NumRetries, sc.HijackCode, sc.Hosts = true, 1, 503, 2
 		sc.Name += " retry_on hijack=503"
 		scs = append(scs, sc)
+	}
+	// recycled per-stream state: the chain object of a finished stream is handed to the next one
+	// (streamfilter chain pool, made LIFO and per-execution by the vsync.Pool shim): request 1 ends in
+	// every way a chain of <=2 filters can end it (also in the middle of a suspended pass), request 2
+	// follows on the same connection once the proxy is idle and must see its own chain from the start
+	seconds := [][]hpFilter{
+		{{Phase: "before-route", Verdict: "hijack-stop"}, {Phase: "before-route", Verdict: "continue"}},
+		{{Phase: "before-route", Verdict: "continue"}, {Phase: "after-route", Verdict: "continue"}, {Phase: "after-choose-host", Verdict: "continue"}},
+		{{Phase: "after-route", Verdict: "continue"}, {Phase: "after-route", Verdict: "direct"}},
+	}
+	for _, first := range c14Scenarios(2, 0, []string{upReply200}) {
+		if len(first.Filters) == 0 {
+			continue
+		}
+		for _, snd := range seconds {
+			sc := hpScenario{Hosts: 1, RouteTimeoutMs: 1000, Sequential: true, Settle: true,
+				Requests:   []hpRequest{{Token: "t1", Body: true, Script: []string{upReply200}}, {Token: "t2", Body: true, Script: []string{upReply200}}},
+				FiltersPer: [][]hpFilter{first.Filters, snd}}
+			a, b := hpScenario{Filters: first.Filters, Requests: sc.Requests[:1]}, hpScenario{Filters: snd, Requests: sc.Requests[1:]}
+			sc.Name = "two requests: " + c14Name(&a) + " then " + c14Name(&b)
+			scs = append(scs, sc)
+		}
 	}
 	bound := vreport.Pick(1, 1)
 	for i, sc := range scs {
